@@ -195,7 +195,7 @@ def r3_arclength(repo: Repo, rep):
         for q in paths(sc.node):
             augs = {dump(e.node.target): (e.op, dump(e.value).replace(" ", "")) for e in q.events if e.kind == "aug" and isinstance(e.node, ast.AugAssign)}
             clamp = f"torch.clamp({loc}/{s_},min=0,max=1)"
-            okp = augs.get(pts, (None, ""))[0] == "Add" and augs[pts][1] in (f"{clamp}*{d_}[:,None]", f"{d_}[:,None]*{clamp}")
+            okp = augs.get(pts, (None, ""))[0] == "Add" and augs[pts][1] in (f"{clamp}*{d_}.unsqueeze(1)", f"{d_}.unsqueeze(1)*{clamp}")
             okl = augs.get(loc) == ("Sub", s_)
             rep.check(R, okp and okl, sc.site(), sc.fq, "walk step: points += clamp(location/len, 0, 1) * dir; location -= len", str(augs)[:200], str(sorted(augs.items()))[:200])
             break
@@ -232,12 +232,45 @@ def r4_mirror(repo: Repo, rep):
         good = len(stores) == 1
         if good:
             st = stores[0]
-            idx = dump(st.target.slice)
-            t = dump(st.value).replace(" ", "")
-            good = f"{b}.sum(axis=2)>=1" in idx.replace(" ", "") and t in (f"torch.subtract(torch.tensor([[1.0,1.0]]),{dump(st.target).replace(' ', '')})", f"1-{dump(st.target).replace(' ', '')}", f"1.0-{dump(st.target).replace(' ', '')}")
+            good = isinstance(st.target, ast.Subscript) and dump(st.target.value) == b and _mirror_mask(st.target.slice, b)
+            v = st.value
+            good = good and isinstance(v, ast.BinOp) and isinstance(v.op, ast.Sub) and dump(v.right) == dump(st.target) and _all_ones(v.left)
         rep.check(R, good, fi.site(), fi.fq, "bary[u+v >= 1] = (1, 1) - bary[u+v >= 1]", dump(stores[0].node)[:140] if stores else "no store", dump(stores[0].node)[:140] if stores else "")
     if n == 0:
         rep.undecided(R, fi.site(), fi.fq, "a mirroring path", "none")
+
+
+def _mirror_mask(idx: ast.AST, b: str) -> bool:
+    """index selecting the pairs with u + v >= 1: M, (M,), torch.where(M) with M = sum(b, last axis) >= 1"""
+    if isinstance(idx, ast.Tuple) and len(idx.elts) == 1:
+        idx = idx.elts[0]
+    if isinstance(idx, ast.Call) and attr_chain(idx.func) in ("torch.where", "torch.nonzero") and len(idx.args) == 1:
+        idx = idx.args[0]
+    if not (isinstance(idx, ast.Compare) and len(idx.ops) == 1):
+        return False
+    l, op, r = idx.left, idx.ops[0], idx.comparators[0]
+    if isinstance(op, (ast.LtE, ast.Lt)):
+        l, r = r, l
+    elif not isinstance(op, (ast.GtE, ast.Gt)):
+        return False
+    if not (isinstance(r, ast.Constant) and r.value in (1, 1.0)):
+        return False
+    if not (isinstance(l, ast.Call) and attr_chain(l.func) == "torch.sum" and l.args and dump(l.args[0]) == b):
+        return False
+    ax = kwarg(l, "dim", 1) or kwarg(l, "axis")
+    return ax is not None and dump(ax) in ("2", "-1")
+
+
+def _all_ones(e: ast.AST) -> bool:
+    if isinstance(e, ast.Constant):
+        return e.value in (1, 1.0) and not isinstance(e.value, bool)
+    if isinstance(e, ast.Call) and attr_chain(e.func) in ("torch.tensor", "torch.as_tensor", "torch.Tensor") and e.args:
+        vals = [n.value for n in ast.walk(e.args[0]) if isinstance(n, ast.Constant)]
+        only = all(isinstance(n, (ast.List, ast.Tuple, ast.Constant)) for n in ast.walk(e.args[0]) if not isinstance(n, (ast.Load,)))
+        return bool(vals) and only and all(v in (1, 1.0) and not isinstance(v, bool) for v in vals)
+    if isinstance(e, ast.Call) and attr_chain(e.func) in ("torch.ones", "torch.ones_like"):
+        return True
+    return False
 
 
 def r5_r6_mixtures(repo: Repo, rep):
@@ -269,13 +302,10 @@ def r5_r6_mixtures(repo: Repo, rep):
                         lhs, rhs = dump(c.left), c.comparators[0]
                         le = isinstance(c.ops[0], (ast.LtE, ast.Lt))
                         ratio_ok = False
-                        if isinstance(rhs, ast.Call) and attr_chain(rhs.func) in ("torch.divide", "torch.div") and len(rhs.args) == 2:
-                            num, den = dump(rhs.args[0]), dump(rhs.args[1])
-                            ratio_ok = (num.endswith("[1]") and den.endswith("[0]") and "_get_volume(" in num and isinstance(rhs.args[0], ast.Subscript)
-                                        and isinstance(rhs.args[1], ast.Subscript) and dump(rhs.args[0].value) == dump(rhs.args[1].value))
-                        elif isinstance(rhs, ast.BinOp) and isinstance(rhs.op, ast.Div):
+                        if isinstance(rhs, ast.BinOp) and isinstance(rhs.op, ast.Div):
                             num, den = dump(rhs.left), dump(rhs.right)
-                            ratio_ok = num.endswith("[1]") and den.endswith("[0]")
+                            ratio_ok = (num.endswith("[1]") and den.endswith("[0]") and "_get_volume(" in num and isinstance(rhs.left, ast.Subscript)
+                                        and isinstance(rhs.right, ast.Subscript) and dump(rhs.left.value) == dump(rhs.right.value))
                         ok = a_ok and le and lhs.startswith("torch.rand(") and ratio_ok
             rep.check(R5, ok, fi.site(p.ret_node), fi.fq, "where(in_a(b_points) or U <= vol_a/vol_total, a_points, b_points)", detail, detail)
         gv = un.methods.get("_get_volume")
